@@ -481,7 +481,8 @@ def run(project, chk):
         # rgba(): rgba_to_rgb((r, g, b, a), background=...)
         if o[0] == "call" and o[1] == f"{CONV}.rgba_to_rgb" and o[2] and o[2][0][0] == "tuple" and len(o[2][0][1]) == 4:
             r4 = o[2][0][1]
-            if all(v[0] == "call" and v[1] == "builtins.int" for v in r4[:3]) and r4[0][2] and r4[0][2][0][0] == "call" and r4[0][2][0][2] and r4[0][2][0][2][0][0] == "call" and r4[0][2][0][2][0][2] and (peel(r4[0][2][0][2][0][2][0]) or ("?",))[0] == "item":
+            if all(v[0] == "call" and v[1] == "builtins.int" for v in r4[:3]) and r4[0][2] and r4[0][2][0][0] == "call" and r4[0][2][0][2] and r4[0][2][0][2][0][0] == "call" and r4[0][2][0][2][0][2] and (peel(r4[0][2][0][2][0][2][0]) or ("?",))[0] == "item" \
+                    and "_extract_number_tokens" in repr(peel(r4[0][2][0][2][0][2][0])[1]):       # (the string branch: items of the token list)
                 n_rgb += 1
                 a = r4[3]
                 ok_a = a[0] == "call" and a[1] == PNT and a[2] and (peel(a[2][0]) or ("?",))[0] == "item" and peel(a[2][0])[2] == 3 and dict(a[3]).get("component", a[2][1] if len(a[2]) > 1 else None) == ("const", False)
